@@ -357,8 +357,8 @@ Section WalkFacts.
           split; [exact R1|]. split.
           -- intros y [<-|Hy]; [rewrite H0; exact Eh | apply R2; exact Hy].
           -- split; [|exact R4]. intros y. rewrite (Hin1 y), (R3 y), H0. cbn [In]. intuition congruence.
-        * inversion E; subst p rest. split; [exact Hh|]. split; [intros y []|]. split; [intros y; tauto|].
-          intros y Hy. pose proof (heap_root_is_max a Hh y Hy) as Hr. rewrite Ea in Hr at 2. cbn [nth] in Hr.
+        * inversion E; subst p rest. split; [exact Hh|]. split; [intros y []|]. split; [intros y; cbn [In]; tauto|].
+          intros y Hy. pose proof (heap_root_is_max a Hh y Hy) as Hr. rewrite Ea in Hr. cbn [nth] in Hr.
           assert (hgt s r0 <= hh) by (apply Hle; rewrite Ea; left; reflexivity). lia.
   Qed.
 
@@ -408,16 +408,17 @@ Section WalkFacts.
     destruct (pop_commits_of_height rank s (length (r0 :: t)) (hgt s r0) (r0 :: t)) as [p' rest] eqn:Ep.
     inversion E; subst p a'. clear E.
     assert (Ehh : hgt s r0 = hh) by (apply heap_maxh; exact Hh).
+    clearbody hh. subst hh.
     destruct (pcoh_correct (length (r0 :: t)) (r0 :: t) (hgt s r0) (le_n _) Hh
                 (fun y Hy => heap_root_is_max (r0 :: t) Hh y Hy) p' rest Ep) as [R1 [R2 [R3 R4]]].
     destruct (ptq_correct p' [] rest R1 (fun c Hc => match Hc with end)) as [Q1 Q2].
-    assert (Sp : seteq p' (at_level s hh (r0 :: t))).
-    { intros y. unfold at_level. rewrite filter_In, Nat.eqb_eq, <- Ehh. split.
+    assert (Sp : seteq p' (at_level s (hgt s r0) (r0 :: t))).
+    { intros y. unfold at_level. rewrite filter_In, Nat.eqb_eq. split.
       - intros Hy. split; [apply R3; left; exact Hy | apply R2; exact Hy].
       - intros [Hy Ey]. apply R3 in Hy. destruct Hy as [Hy|Hy]; [exact Hy|]. apply R4 in Hy. lia. }
     split; [exact Q1|]. split; [exact Sp|].
     intros z. rewrite Q2, in_app_iff. unfold below_level, push_parents.
-    rewrite filter_In, in_flat_map, <- Ehh. split.
+    rewrite filter_In, in_flat_map. split.
     - intros [Hz|[c [Hc Hz]]].
       + left. split; [apply R3; right; exact Hz|]. apply R4 in Hz.
         destruct (Nat.eqb_spec (hgt s z) (hgt s r0)); [lia | reflexivity].
